@@ -130,6 +130,96 @@ Theorem C04_flat_profile_mean : forall (a : ampR) freqs pin dgt ripple (pin_db e
 Proof. exact flat_profile_mean. Qed.
 Print Assumptions C04_flat_profile_mean.
 
+(* ---- the DGT (tilt / ripple) branch of _gain_profile: one secant step towards the effective gain *)
+(* the returned DGT scaling is the point where the affine interpolant of the measured average gain through the centre
+   probe and the low (eff below the centre) or high (eff above) probe takes the value eff *)
+Theorem C04_secant_consistent : forall eff xc gc xl gl xh gh : R,
+  let x3 := secant_stepR eff xc gc xl gl xh gh in
+  (Rabs (eff - gc) <= 1 / 100000000000 -> x3 = xc) /\
+  (1 / 100000000000 < Rabs (eff - gc) -> eff < gc -> gl <> gc -> xl <> xc ->
+     gc + (gl - gc) / (xl - xc) * (x3 - xc) = eff) /\
+  (1 / 100000000000 < Rabs (eff - gc) -> gc <= eff -> gc <> gh -> xc <> xh ->
+     gc + (gc - gh) / (xc - xh) * (x3 - xc) = eff).
+Proof. exact secant_consistent. Qed.
+Print Assumptions C04_secant_consistent.
+
+Theorem C04_gain_profile_dgt_branch : forall (a : ampR) freqs pin dgt ripple (pin_db eff : R),
+  (2 <= length dgt)%nat ->
+  5 / 100 < Rabs (@deltax_of NumR (g1st_of a freqs dgt ripple)) ->
+  let g1st := g1st_of a freqs dgt ripple in
+  let base := @normalise NumR g1st eff in
+  let gavg := fun x : R => @gavg_of NumR pin (@tilt_by NumR base dgt x) pin_db in
+  let xc := eff - @gavg_of NumR pin base pin_db in
+  let dx := @deltax_of NumR g1st in
+  gain_profile a freqs pin dgt ripple pin_db eff =
+  @tilt_by NumR base dgt (secant_stepR eff xc (gavg xc) (xc - dx) (gavg (xc - dx)) (xc + dx) (gavg (xc + dx))).
+Proof. exact gain_profile_dgt_branch. Qed.
+Print Assumptions C04_gain_profile_dgt_branch.
+
+(* ---- the other NF models: what the code computes, and the evident facts *)
+Theorem C04_nf_fixed : forall (nf0 gmin gmax g pin nch sw : R),
+  fst (nf_stageR (@mkStage NumR (@NFFixed NumR nf0) gmin gmax) g pin nch sw) = Some (nf0 + Rmax (gmin - g) 0).
+Proof. exact nf_fixed. Qed.
+Print Assumptions C04_nf_fixed.
+
+Theorem C04_nf_fixed_const : forall (nf0 gmin gmax g pin nch sw : R), gmin <= g ->
+  fst (nf_stageR (@mkStage NumR (@NFFixed NumR nf0) gmin gmax) g pin nch sw) = Some nf0.
+Proof. exact nf_fixed_const. Qed.
+Print Assumptions C04_nf_fixed_const.
+
+Theorem C04_nf_openroadm : forall (coef : list R) (gmin gmax g pin nch sw : R),
+  fst (nf_stageR (@mkStage NumR (@NFOpenroadm NumR coef) gmin gmax) g pin nch sw) =
+  Some (pin50 pin nch sw - polyvalR coef (pin50 pin nch sw) + 58 + Rmax (gmin - g) 0).
+Proof. exact nf_openroadm. Qed.
+Print Assumptions C04_nf_openroadm.
+
+Theorem C04_polyval4 : forall a b c d x : R, polyvalR [a; b; c; d] x = a * x ^ 3 + b * x ^ 2 + c * x + d.
+Proof. exact polyval4. Qed.
+Print Assumptions C04_polyval4.
+
+Theorem C04_nf_openroadm_preamp : forall (gmin gmax g pin nch sw : R),
+  fst (nf_stageR (@mkStage NumR (@NFOpenroadmPreamp NumR) gmin gmax) g pin nch sw) =
+  Some (pin50 pin nch sw - Rmin ((4 * pin50 pin nch sw + 275) / 7) 33 + 58 + Rmax (gmin - g) 0).
+Proof. exact nf_openroadm_preamp. Qed.
+Print Assumptions C04_nf_openroadm_preamp.
+
+Theorem C04_nf_openroadm_booster : forall (gmin gmax g pin nch sw : R) (c : chR),
+  fst (nf_stageR (@mkStage NumR (@NFOpenroadmBooster NumR) gmin gmax) g pin nch sw) = None /\
+  @ase_in NumR c None = 0.
+Proof. exact nf_openroadm_booster. Qed.
+Print Assumptions C04_nf_openroadm_booster.
+
+Theorem C04_nf_advanced : forall (fit : list R) (gmin gmax g pin nch sw : R),
+  fst (nf_stageR (@mkStage NumR (@NFAdvanced NumR fit) gmin gmax) g pin nch sw) =
+  Some (polyvalR fit (- Rmax (gmax - (g + Rmax (gmin - g) 0)) 0) + Rmax (gmin - g) 0).
+Proof. exact nf_advanced. Qed.
+Print Assumptions C04_nf_advanced.
+
+(* dual stage = Friis cascade: preamp at its maximum flat gain g1, booster at eff - g1 *)
+Theorem C04_nf_dual_friis : forall (pre boost : @stage NumR) (eff pin nch sw : R),
+  let g1 := st_gain_flatmax pre in
+  let n1 := fst (nf_stageR pre g1 pin nch sw) in
+  let n2 := fst (nf_stageR boost (eff - g1) pin nch sw) in
+  calc_nf_avgR (@Dual NumR pre boost) eff pin nch sw = Some (lin2dbR (odb2linR n1 + odb2linR n2 / db2linR g1)).
+Proof. exact nf_dual_friis. Qed.
+Print Assumptions C04_nf_dual_friis.
+
+Theorem C04_nf_dual_ge_preamp : forall (pre boost : @stage NumR) (eff pin nch sw n1 : R),
+  fst (nf_stageR pre (st_gain_flatmax pre) pin nch sw) = Some n1 ->
+  exists nf, calc_nf_avgR (@Dual NumR pre boost) eff pin nch sw = Some nf /\ n1 <= nf.
+Proof. exact nf_dual_ge_preamp. Qed.
+Print Assumptions C04_nf_dual_ge_preamp.
+
+Theorem C04_nf_dual_antitone : forall (pre : @stage NumR) (nf1 nf2 dp bmin bmax eff eff' pin nch sw n1 : R),
+  fst (nf_stageR pre (st_gain_flatmax pre) pin nch sw) = Some n1 ->
+  bmin <= eff - st_gain_flatmax pre -> eff <= eff' ->
+  exists a b,
+    calc_nf_avgR (@Dual NumR pre (@mkStage NumR (@NFVariable NumR nf1 nf2 dp) bmin bmax)) eff pin nch sw = Some a /\
+    calc_nf_avgR (@Dual NumR pre (@mkStage NumR (@NFVariable NumR nf1 nf2 dp) bmin bmax)) eff' pin nch sw = Some b /\
+    b <= a.
+Proof. exact nf_dual_antitone. Qed.
+Print Assumptions C04_nf_dual_antitone.
+
 (* ---- non-vacuity *)
 (* the clamp bites on a concrete saturated case and is idle on an unsaturated one *)
 Example ex_clamp : (eff_gain_q 20 21 3 == 18)%Q /\ (eff_gain_q 20 21 3 < 20)%Q /\ (eff_gain_q 20 21 (-5) == 20)%Q.
@@ -140,3 +230,21 @@ Proof. repeat split; reflexivity. Qed.
    takes that branch, which the correspondence run observes (nf1 = 5.45.., nf2 = 7.40..) *)
 Example ex_pad : nf_variableR 5 7 5 15 26 13 = nf_variableR 5 7 5 15 26 15 + 2.
 Proof. rewrite (nf_pad 5 7 5 15 26 13) by lra. f_equal. lra. Qed.
+
+(* secant step on concrete probes: eff = 20 below the centre probe 20.4, low probe (x = -1) measures 19.9 *)
+Example ex_secant : 20.4 + (19.9 - 20.4) / (-1 - 0) * (secant_stepR 20 0 20.4 (-1) 19.9 1 20.8 - 0) = 20.
+Proof.
+  destruct (secant_consistent 20 0 20.4 (-1) 19.9 1 20.8) as (_ & H & _). apply H.
+  - rewrite Rabs_left by lra. lra.
+  - lra.
+  - lra.
+  - lra.
+Qed.
+
+(* a dual stage built from a fixed-gain preamp (nf0 = 5.5 at any gain) is at least as noisy as the preamp *)
+Example ex_dual : exists nf,
+  calc_nf_avgR (@Dual NumR (@mkStage NumR (@NFFixed NumR 5.5) 12 12) (@mkStage NumR (@NFFixed NumR 6) 8 16)) 25 0 1 1 = Some nf
+  /\ 5.5 <= nf.
+Proof.
+  apply nf_dual_ge_preamp. cbn [st_gain_flatmax]. rewrite nf_fixed_const by lra. reflexivity.
+Qed.
